@@ -51,7 +51,34 @@ func asParseFault(g GenFn, every int) GenFn {
 	}
 }
 
+// asDecFault: `dec` lines -> `decf` lines with the visitor failing at every event index up to 12
+func asDecFault(g GenFn, every int) GenFn {
+	return func(r *Rand, tier string, emit func(string)) {
+		i := 0
+		g(r, tier, func(line string) {
+			f := strings.Fields(line)
+			if len(f) != 6 || f[0] != "dec" {
+				return
+			}
+			i++
+			if every > 1 && i%every != 0 {
+				return
+			}
+			if len(f[5]) > 300 {
+				return
+			}
+			for k := 0; k < 12; k++ {
+				emit(fmt.Sprintf("decf %s %s %s %s %d %s", f[1], f[2], f[3], f[4], k, f[5]))
+			}
+		})
+	}
+}
+
 func init() {
+	RegisterGen("C16", asDecFault(asDec(genXcodeForeign, 1), 3))
+	for _, f := range ModelledFormats {
+		RegisterGen("C16", asDecFault(genDecOps(f, 300), 2))
+	}
 	RegisterGen("C16", asParseFault(genXcodeForeign, 1))
 	RegisterGen("C16", asParseFault(genUbjParseTargeted(), 12))
 	RegisterGen("C16", asParseFault(genJsonParseStruct, 12))
